@@ -4,6 +4,7 @@ C08 (round 4) — the `at(pos)` kernels over views (`Model/C08ViewsA.lean`) equa
 import Mahotas.Model.C08ViewsA
 import Mahotas.Proofs.C08Kernels
 import Mahotas.Proofs.C08TiesMark
+import Mahotas.Proofs.FilterIter
 namespace Mahotas.C08
 open Mahotas
 
@@ -168,5 +169,37 @@ theorem majorityLoops_defined (rows cols n : Nat) (px : Nat → Nat → Bool) :
   · simp only [hc, if_true]; exact hinit
   · simp only [hc]
     exact key _ _ hinit
+
+/-! ### `iterate_both` reading the array iterator's position -/
+
+theorem bothAfter_it (fi : FilterIter.FIter) (v : View) (i : Nat) : (bothAfter fi v i).it = (Iter.begin v).incrN i := by
+  induction i with
+  | zero => rfl
+  | succ k ih => simp only [bothAfter, iterateBothV, Iter.incrN, ih]
+
+/-- the two odometers agree: the private position of `Model/FilterIter.lean` is the array iterator's (reversed) position -/
+theorem posRev_eq_iter_pos (m : Mode) (v : View) (wf : v.WF) (fshape : List Nat) (fp : Array Bool)
+    (hlen : v.shape.length = fshape.length) (ha : ∀ a ∈ v.shape, 1 ≤ a) (hf : ∀ f ∈ fshape, 1 ≤ f)
+    (i : Nat) (hi : i < shapeSize v.shape) :
+    (FilterIter.stateAfter (FilterIter.mkFIter m v.shape fshape fp) v.shape i).posRev =
+      ((Iter.begin v).incrN i).pos.map Int.ofNat := by
+  have h1 := filterIter_position m v.shape fshape fp hlen ha hf i hi
+  have h2 := position_eq v wf i hi
+  simp only [Iter.position] at h2
+  rw [← h2] at h1
+  have := congrArg List.reverse h1
+  simpa [List.map_reverse] using this
+
+theorem bothAfter_cur (m : Mode) (v : View) (wf : v.WF) (fshape : List Nat) (fp : Array Bool)
+    (hlen : v.shape.length = fshape.length) (ha : ∀ a ∈ v.shape, 1 ≤ a) (hf : ∀ f ∈ fshape, 1 ≤ f)
+    (i : Nat) (hi : i ≤ shapeSize v.shape) :
+    (bothAfter (FilterIter.mkFIter m v.shape fshape fp) v i).cur =
+      (FilterIter.stateAfter (FilterIter.mkFIter m v.shape fshape fp) v.shape i).cur := by
+  induction i with
+  | zero => rfl
+  | succ k ih =>
+    have hk : k < shapeSize v.shape := by omega
+    simp only [bothAfter, iterateBothV, FilterIter.stateAfter, FilterIter.step]
+    rw [ih (by omega), bothAfter_it, posRev_eq_iter_pos m v wf fshape fp hlen ha hf k hk, incrN_eq v wf.len k hk]
 
 end Mahotas.C08
